@@ -103,3 +103,64 @@ Section Runs.
     rewrite forallb_forall in Hsf, Hof. rewrite (Hsf fd Hin), (Hof fd Hin). reflexivity.
   Qed.
 End Runs.
+
+(* ================================================================ transparency *)
+(* analyses whose hooks return nothing *)
+Definition observing_analyses (D : data) (analyses : list (analysis (earg (d_val D)))) : Prop :=
+  Forall (observing (earg (d_val D))) analyses.
+(* building a list has no program-visible effect and tuple(list) is the tuple of the elements *)
+Definition list_building_pure (D : data) : Prop :=
+  exists mkl : list (d_val D) -> d_val D,
+    (forall l w0, d_mklist D l w0 = (mkl l, w0)) /\ (forall l w0, d_tuple_of_list D (mkl l) w0 = d_mktuple D l w0).
+(* the truth of a boolean is that boolean, without effect (implied by pure_truth) *)
+Definition bool_truth (D : data) : Prop := forall b w0, d_truth D (d_const D (KBool b)) w0 = (POk b, w0).
+(* with the [exception] hook selected, handlers carry neither type nor name (see Py/Sem.v, tk_hs) *)
+Definition tk_prog (H : list string) (p : program) : bool :=
+  forallb (fun fd => tk_ss H (f_body fd)) (p_funs p) && tk_ss H (p_main p).
+
+Lemma pure_truth_bool D : pure_truth D -> bool_truth D.
+Proof. intros [tr [Hp Hb]] b w0. rewrite Hp, Hb. reflexivity. Qed.
+
+Section Transparency.
+  Variable D : data.
+  Variable analyses : list (analysis (earg (d_val D))).
+  Variable modpath : string.
+
+  (* outcome, world, globals, frames, handled exceptions: everything but the engine state *)
+  Definition visible (x : result D) :=
+    (fst x, w (snd x), genv (snd x), frames (snd x), excs (snd x)).
+
+  Lemma rres_eq_eq (r1 r2 : res (d_val D) unit) : rres (d_val D) eq r1 r2 -> r1 = r2.
+  Proof. destruct r1, r2; cbn; intros Hr; try contradiction; try reflexivity; congruence. Qed.
+
+  Theorem reference_is_transparent (H : list string) (p : program) (fuel : nat) (s : state D) :
+    observing_analyses D analyses -> list_building_pure D -> bool_truth D ->
+    src_prog p = true -> tk_prog H p = true ->
+    visible (ref_run D analyses modpath H fuel p s) = visible (orig_run D analyses modpath fuel p s).
+  Proof.
+    intros Hobs [mkl [Hl Ht]] Hb Hs Hk.
+    unfold src_prog in Hs. unfold tk_prog in Hk.
+    apply andb_true_iff in Hs; destruct Hs as [Hsf Hsm]. apply andb_true_iff in Hk; destruct Hk as [Hkf Hkm].
+    assert (Hf : forallb (fun_tk H) (p_funs p) = true).
+    { apply forallb_forall. intros fd Hin. unfold fun_tk. rewrite forallb_forall in Hsf, Hkf. rewrite (Hsf fd Hin), (Hkf fd Hin). reflexivity. }
+    assert (T : sim (d_val D) (d_world D) eq (ref_run D analyses modpath H fuel p) (orig_run D analyses modpath fuel p)).
+    { exact (transp_module (d_val D) (d_world D) (d_const D) (d_un D) (d_bin D) (d_inplace D) (d_cmp D) (d_truth D) (d_getattr D)
+               (d_setattr D) (d_getitem D) (d_setitem D) (d_call D) (d_mklist D) (d_mktuple D) (d_tuple_of_list D)
+               (d_iter D) (d_next D) (d_exc_match D) (d_exc D) (d_assertion D) (d_with_cause D) (d_as_exc D)
+               (d_is_exception D) (d_as_fun D) (d_mk_fun D) (d_filt_str D) (d_is_int D) (d_line_of D)
+               analyses modpath H (p_funs p) Hobs mkl Hl Ht Hb Hf fuel (has_rt (instr_prog H p)) (p_main p) Hsm Hkm). }
+    specialize (T s s (conj eq_refl (conj eq_refl (conj eq_refl eq_refl)))). destruct T as [Tr [Tw [Tg [Tf Te]]]].
+    apply rres_eq_eq in Tr. unfold visible. repeat (apply f_equal2; [|assumption]). exact Tr.
+  Qed.
+
+  (* execution transparency of the instrumented program *)
+  Theorem instrumented_is_transparent (H : list string) (p : program) (fuel : nat) (s : state D) :
+    observing_analyses D analyses -> pure_truth D -> list_building_pure D ->
+    src_prog p = true -> ok_prog H p = true -> tk_prog H p = true ->
+    visible (inst_run D analyses modpath H fuel p s) = visible (orig_run D analyses modpath fuel p s).
+  Proof.
+    intros Hobs Hp Hl Hs Ho Hk.
+    rewrite (instrumented_is_reference D analyses modpath H p fuel s Hp Hs Ho).
+    apply reference_is_transparent; try assumption. apply pure_truth_bool; exact Hp.
+  Qed.
+End Transparency.
